@@ -98,7 +98,10 @@ func (r *validationResponseHandler) HandleValidationResponse(
 		ctx.Stored.Data.Header.Del("Age")
 		updateStoredHeaders(ctx.Stored.Data, resp)
 		ctx.Stored.RequestedAt, ctx.Stored.ReceivedAt = ctx.Start, ctx.End
-		if f, ok := r.rs.(ResponseFreshener); ok && ctx.Stored.ID != "" {
+		// RFC 9111 §5.2.1.5, §5.2.2.5: with no-store on the request or on the
+		// 304, nothing of the 304 is written to the store.
+		noStore := ctx.CCReq.NoStore() || ParseCCResponseDirectives(resp.Header).NoStore()
+		if f, ok := r.rs.(ResponseFreshener); ok && ctx.Stored.ID != "" && !noStore {
 			_ = f.FreshenResponse(ctx.Stored)
 		}
 		CacheStatusRevalidated.ApplyTo(ctx.Stored.Data.Header)
